@@ -16,4 +16,6 @@ def by_key(finding, case):
 
 CLASSIFIERS = {
     "router.colon_collision": by_key,
+    "router.nf_wildcard_preempts": by_key,
+    "router.nf_on_later_handler_node": by_key,
 }
